@@ -88,6 +88,8 @@ ANDERSON_SLACK = 30.0  # was 1e3 before fix fdff869; the mixture of earlier iter
 # direct solves on degenerate-mobility inputs (measured 2.7e-9 on the 1-D 'centre-zero' input, i.e. 2.7 x the plain tolerance)
 TOL_GEN_BREGMAN = 1e-4  # the shrink step thresholds (max(.,0)): under a non-power-of-two factor rounding can flip a face in / out of the
 # active set of an unconverged iterate (measured 3e-6 on 4x5 after 200 iterations); power-of-two factors stay at 1e-9
+EXTREME_TOL_ITERATIVE = 1e-4  # amg / cg with default (relative 1e-6) linear tolerances: distance reproduced to 6 digits at small scales (measured)
+EXTREME_LARGE_BOUND = 0.05    # known: at masses x 2^20 .. 2^30 amg / cg Newton distances deviate by up to 1.5 % (measured), see findings
 TOL_TIE = 1e-9     # returned distance vs independently recomputed cost of the returned flux
 TOL_FEAS = 1e-8    # mass conservation of the returned flux relative to max|rhs| (direct linear solves; observed <= 1e-13)
 
@@ -1256,6 +1258,86 @@ def bruteforce(ctx):
         ctx.mark("TIE-BROKEN", {"correspondence": "dual-certificates", "request": first[0], "model": first[1], "expected": first[2], "n_diffs": bad})
 
 
+# ---------------------------------------------------------------------------------------------- homogeneity at extreme scales, default options
+
+
+def extreme_case(args):
+    """worker: one (grid, method, linear back-end) with the back-end's DEFAULT options (no tolerance given) at s = 1 and extreme s"""
+    import darsia as d
+
+    shape, hs, m1, m2, method, backend, exps = args
+    m1, m2 = np.array(m1), np.array(m2)
+    dims = [sh * h for sh, h in zip(shape, hs)]
+    out = {}
+    for e in [0] + list(exps):
+        sc = 2.0 ** e
+        r = solve(d, sc * m1, sc * m2, dims, method, {"linear_solver": backend, "return_info": True, "num_iter": 8})
+        if isinstance(r, Raised):
+            out[e] = ("raised", repr(r), str(r.exc)[:100])
+        else:
+            out[e] = ("ok", float(r[0]), bool(r[1].get("converged")))
+    return out
+
+
+def extreme_scale_oracle(ctx, d):
+    """the scaling clause at extreme magnitudes (2^-30 .. 2^30) for every linear back-end with its default options: the distance
+    must be s * W1 (never 0 / non-finite for distinct distributions) and respect the first-moment bound at that scale"""
+    rng = ctx.rng
+    grids = [(3, 3), (6, 5)] + ([(8, 10), (12, 12), (5, 5, 5), (6, 1)] if ctx.big else [])
+    exps = [-26, -20, 20] + ([-30, 30] if ctx.big else [])
+    jobs = []
+    for shape in grids:
+        hs = [rng.choice((0.25, 0.5, 1.0, 2.0)) for _ in shape]
+        m1, m2 = gen_pair(rng, shape, "positive")
+        for method in ("newton", "bregman"):
+            for backend in ("direct", "amg", "cg"):
+                jobs.append((list(shape), hs, m1.tolist(), m2.tolist(), method, backend, exps))
+    with mp.get_context("fork").Pool(min(16, max(2, mp.cpu_count()))) as pool:
+        res = pool.map(extreme_case, jobs, chunksize=1)
+    worst = {}
+    for (shape, hs, m1, m2, method, backend, _), out in zip(jobs, res):
+        rp = {"shape": shape, "hs": hs, "m1": m1, "m2": m2, "method": method, "linear_solver": backend, "options": "defaults"}
+        fm = first_moment(np.array(m1), np.array(m2), hs)
+        base = out[0]
+        ctx.count(("extreme", tuple(shape), method, backend), n=len(out))
+        if base[0] != "ok":
+            ctx.fail(f"C05:extreme-scale:raises:{backend}:{method}", f"grid {tuple(shape)} default options: {base[1]} {base[2]}", rp)
+            continue
+        d1 = base[1]
+        for e, v in out.items():
+            if e == 0:
+                continue
+            sc = 2.0 ** e
+            if v[0] != "ok":
+                ctx.fail(f"C05:extreme-scale:raises:{backend}:{method}", f"grid {tuple(shape)} masses x 2^{e}, default options: {v[1]} {v[2]}", {**rp, "exponent": e})
+                continue
+            dist = v[1]
+            if not np.isfinite(dist) or (dist == 0.0 and d1 != 0.0):
+                ctx.fail(f"C05:extreme-scale:zero-or-nonfinite:{backend}:{method}", f"grid {tuple(shape)}, linear_solver={backend} (default options), masses x 2^{e}: distance {dist!r} "
+                         f"although the distributions differ (distance at scale 1: {d1!r})", {**rp, "exponent": e, "distance": dist})
+                continue
+            dev = abs(dist / sc - d1) / max(d1, 1e-300)
+            key = f"{method}:{backend}:{'small' if e < 0 else 'large'}"
+            worst[key] = max(worst.get(key, 0.0), dev)
+            if dist < sc * fm * (1 - 1e-5):
+                ctx.fail(f"C05:extreme-scale:first-moment-bound:{backend}:{method}", f"grid {tuple(shape)} masses x 2^{e}: distance {dist!r} < first-moment displacement {sc * fm!r}", {**rp, "exponent": e})
+            if method == "bregman":
+                # default L = 1 is a dimensional parameter: bounded known class (see BREGMAN_FIXED_L_BOUND)
+                if dev > TOL_GEN:
+                    ctx.fail(bregman_scale_signature(dev, v[2] and base[2]), f"grid {tuple(shape)} bregman/{backend} default options, masses x 2^{e}: d/s = {dist / sc!r} vs {d1!r} "
+                             f"(relative deviation {dev:.3g})", {**rp, "exponent": e})
+                continue
+            tol = TOL_EXACT if backend == "direct" else EXTREME_TOL_ITERATIVE
+            if dev > tol:
+                if backend != "direct" and e > 0 and dev <= EXTREME_LARGE_BOUND:
+                    sig = f"C05:extreme-scale:newton:{backend}:large-scale:dev<=5%"
+                else:
+                    sig = f"C05:extreme-scale:newton:{backend}:{'small' if e < 0 else 'large'}-scale"
+                ctx.fail(sig, f"grid {tuple(shape)} newton, linear_solver={backend} with its default options, masses x 2^{e}: d/s = {dist / sc!r} but the distance at scale 1 is {d1!r} "
+                         f"(relative deviation {dev:.3g})", {**rp, "exponent": e, "distance": dist})
+    ctx.cov["extreme_scale_max_relative_deviation(method:backend:small|large)"] = worst
+
+
 def make_cases(ctx):
     rng = ctx.rng
     cases = []
@@ -1321,6 +1403,7 @@ def run(ctx):
             ctx.fail(f"C05:dispatch:{k}", f"wasserstein_distance(method={METHODS[k]!r}) reaches {t[k]!r}, documented back-end is {want}", {"method": METHODS[k]})
 
     rule_facts_oracle(ctx, d)
+    extreme_scale_oracle(ctx, d)
     corner_rule_tie(ctx, d)
     thin_correspondence(ctx, d)
     bruteforce(ctx)
